@@ -5,19 +5,19 @@ import contracts.lib  # noqa
 
 A = 'phylib/io/array.py'
 
-contract(A, '_unique', props=['C07', 'C15'], params={'x': 'arr[int]'}, result='arr[int]',
+contract(A, '_unique', hints={'replay': ('unique', {'x': ('array', 'x'), 'dtype': ('const', 'int64')})}, props=['C07', 'C15'], params={'x': 'arr[int]'}, result='arr[int]',
     # "the unique-id helper agrees with its set-theoretic definition": the distinct non-negative values, increasing
     ensures=[('strictly-increasing', 'all(result[i] < result[j] for i in range(len(result)) for j in range(i + 1, len(result)))'),
              ('only-values-present-and-non-negative', 'all(result[j] >= 0 and any(x[k] == result[j] for k in range(len(x))) for j in range(len(result)))'),
              ('every-non-negative-value-present', 'all(implies(x[k] >= 0, any(result[j] == x[k] for j in range(len(result)))) for k in range(len(x)))')])
 
-contract(A, '_spikes_in_clusters', props=['C07'], params={'spike_clusters': 'arr[int]', 'clusters': 'arr[int]'}, result='arr[int]',
+contract(A, '_spikes_in_clusters', hints={'replay': ('spikes_in_clusters', {'sc': ('array', 'spike_clusters'), 'dtype': ('const', 'int64'), 'clusters': ('array', 'clusters')})}, props=['C07'], params={'spike_clusters': 'arr[int]', 'clusters': 'arr[int]'}, result='arr[int]',
     # "selecting the spikes of any set of clusters": exactly the spike indices whose cluster is requested, increasing
     ensures=[('strictly-increasing', 'all(result[i] < result[j] for i in range(len(result)) for j in range(i + 1, len(result)))'),
              ('only-spikes-of-requested-clusters', 'all(0 <= result[j] and result[j] < len(spike_clusters) and any(clusters[c] == spike_clusters[result[j]] for c in range(len(clusters))) for j in range(len(result)))'),
              ('every-spike-of-a-requested-cluster', 'all(implies(any(clusters[c] == spike_clusters[s] for c in range(len(clusters))), any(result[j] == s for j in range(len(result)))) for s in range(len(spike_clusters)))')])
 
-contract(A, '_index_of', props=['C07', 'C06', 'C15'], params={'arr': 'arr[int]', 'lookup': 'arr[int]'}, result='arr[int]',
+contract(A, '_index_of', hints={'replay': ('index_of', {'arr': ('array', 'arr'), 'dtype': ('const', 'int64'), 'lookup': ('array', 'lookup')})}, props=['C07', 'C06', 'C15'], params={'arr': 'arr[int]', 'lookup': 'arr[int]'}, result='arr[int]',
     requires=[('lookup-distinct', 'all(lookup[i] != lookup[j] for i in range(len(lookup)) for j in range(i + 1, len(lookup)))'),
               ('lookup-entries-at-least-minus-1', 'all(lookup[i] >= -1 for i in range(len(lookup)))'),
               ('every-element-is-in-the-lookup', 'all(any(lookup[i] == arr[k] for i in range(len(lookup))) for k in range(len(arr)))')],
@@ -30,7 +30,7 @@ contract(A, '_index_of', props=['C07', 'C06', 'C15'], params={'arr': 'arr[int]',
 _SID = lambda s: 'ite(spike_ids is None, %s, spike_ids[%s])' % (s, s)
 _K, _V = 'dkeys(result)', 'dvals(result)'
 _RUNS = ['groups-are-the-runs', 'ids-are-constant-between-boundaries', 'boundaries-start-at-zero-and-increase', 'sorted-position-p-holds-spike-rel[p]']
-contract(A, '_spikes_per_cluster', props=['C07'], params={'spike_clusters': 'arr[int]', 'spike_ids': 'opt[arr[int]]'}, defaults={'spike_ids': 'None'}, result='assoc[int]',
+contract(A, '_spikes_per_cluster', hints={'replay': ('spikes_per_cluster', {'sc': ('array', 'spike_clusters'), 'dtype': ('const', 'int64')})}, props=['C07'], params={'spike_clusters': 'arr[int]', 'spike_ids': 'opt[arr[int]]'}, defaults={'spike_ids': 'None'}, result='assoc[int]',
     requires=[('one-id-per-spike', 'implies(spike_ids is not None, len(spike_ids) == len(spike_clusters))'),
               ('supplied-spike-ids-increasing', 'implies(spike_ids is not None, all(spike_ids[a] < spike_ids[b] for a in range(len(spike_ids)) for b in range(a + 1, len(spike_ids))))')],
     # S = cluster ids in sorted order; idx = the positions where a new id starts; run i = positions idx[i] .. next boundary - 1
